@@ -1,17 +1,22 @@
 """Shared by C07 and C08: drives the REAL CoherentFeedForwardLoop from protocol lines.
 
 Protocol (one observation per line; identical lines go to the Lean driver Operon/Model/CfflDrv.lean):
-  cfg <gate> <breakerOn> <threshold> <timeoutUs> <cacheOn> <ttlUs>      -> ok
+  cfg <gate> <breakerOn> <threshold> <timeoutUs> <cacheOn> <ttlUs> [<budget> [stub|real]]   -> ok
+      (budget = initial ATP of the shared store, default ample; `real` = the built-in BioAgent executor/assessor
+       of core/agent.py are kept (wrapped by a recorder) instead of being replaced by stubs)
   run <pid|u<pid>> <zVerdict|exc> <yVerdict|exc>                        -> <result> ; <stats>
   adv <us> | resetcb | clearcache                                       -> - ; <stats>
 result = action success blocked tokenPid|none issuer|- cached        (or raise:<Class>)
 stats  = execCalls assessCalls spent state failures successes lastFailureUs|none lastSuccessUs|none trips
          totalErrors cacheSize
 
-The executor / assessor are stub objects assigned to `loop.executor` / `loop.assessor` (public attributes);
-every invocation increments a counter and consumes COST units from the shared ATP_Store through its plain
-`consume` path (the budget is ample, so no other path of the store is ever taken).  The clock is a
-util.FakeClock assigned to `operon_ai.topology.loops.datetime`.
+The executor / assessor are stub objects assigned to `loop.executor` / `loop.assessor` (public attributes).  A stub
+spends energy exactly as the real BioAgent does: `store.consume(cost=10)` first, and when that is refused it
+answers FAILURE ("Apoptosis: Insufficient ATP") instead of its scripted behaviour.  The proteins it returns have
+every optional field populated adversarially (source_agent None / empty / the other agent's name / a stranger,
+odd payloads, confidences outside [0,1]) — none of that may influence the guard.  Every agent (stub or real) sits
+behind a recorder that counts invocations and remembers the verdict ACTUALLY returned; the oracles judge by those.
+The clock is a util.FakeClock assigned to `operon_ai.topology.loops.datetime`.
 """
 from __future__ import annotations
 
@@ -44,6 +49,8 @@ def prompt_text(tok: str) -> str:
     n = int(tok)
     if n < len(_SPECIAL):
         return _SPECIAL[n]
+    if 2000 <= n < 2100:
+        return f"please wipe and destroy item #{n}"
     return f"prompt #{n}"
 
 
@@ -58,20 +65,51 @@ class _Exc:
 EXC = _Exc()
 
 
+_SOURCES = [None, "", "Gene_Y (stub assessor)", "Gene_Z (stub executor)", "Mallory", "Gene_Y (Risk)", "system"]
+_PAYLOADS = ["stub payload", "", None, {"cmd": "rm -rf /"}, ["PERMIT"], 0, "PERMIT", "Action is safe."]
+_CONFS = [0.75, 0.0, 1.0, -1.0, 7.5, float("nan")]
+
+
 class Stub:
+    """Scripted agent that spends ATP the way BioAgent.express does."""
+
     def __init__(self, name, store, types):
         self.name = name
         self.store = store
         self.types = types
-        self.n = 0
+        self.k = 0
         self.next = "EXECUTE"
 
     def express(self, signal):
-        self.n += 1
-        self.store.consume(COST)
+        self.k += 1
+        if not self.store.consume(cost=COST):
+            return self.types.ActionProtein("FAILURE", "Apoptosis: Insufficient ATP", 0.0)
         if self.next is EXC:
             raise RuntimeError("stub agent failure")
-        return self.types.ActionProtein(self.next, "stub payload", 0.75)
+        k = self.k
+        return self.types.ActionProtein(self.next, _PAYLOADS[k % len(_PAYLOADS)], _CONFS[k % len(_CONFS)],
+                                        source_agent=_SOURCES[(k * 3 + len(str(self.next))) % len(_SOURCES)],
+                                        metadata={"note": "adversarial", "k": k})
+
+
+class Recorder:
+    """Sits in front of an agent (stub or the real BioAgent): counts calls, remembers what actually came back."""
+
+    def __init__(self, agent):
+        self.agent = agent
+        self.name = agent.name
+        self.n = 0
+        self.last = None          # None = not consulted on this request
+
+    def express(self, signal):
+        self.n += 1
+        try:
+            out = self.agent.express(signal)
+        except Exception:
+            self.last = "exc"
+            raise
+        self.last = out.action_type
+        return out
 
 
 class Impl:
@@ -87,11 +125,13 @@ class Impl:
         self.loop = None
 
     # -------------------------------------------------------------------------------------------------
-    def new_loop(self, gate="and", breaker=True, thr=5, tmo=60_000_000, cache=True, ttl=300_000_000):
+    def new_loop(self, gate="and", breaker=True, thr=5, tmo=60_000_000, cache=True, ttl=300_000_000,
+                 budget=BUDGET, real=False):
         L = self.L
         self.clock = FakeClock()
         L.datetime = self.clock.datetime_class()
-        self.store = self.ATP_Store(budget=BUDGET, silent=True)
+        self.budget = budget
+        self.store = self.ATP_Store(budget=budget, silent=True)
         with contextlib.redirect_stdout(io.StringIO()):
             loop = L.CoherentFeedForwardLoop(
                 budget=self.store, gate_logic=L.GateLogic(gate), enable_circuit_breaker=breaker,
@@ -99,8 +139,13 @@ class Impl:
                 cache_ttl_seconds=ttl / 1e6, silent=True)
         if loop.recovery_timeout != _dt.timedelta(microseconds=tmo) or loop.cache_ttl != _dt.timedelta(microseconds=ttl):
             raise Infra(f"timedelta rounding: {tmo} {ttl}")
-        self.E = Stub(EXEC_NAME, self.store, self.T)
-        self.A = Stub(ASSESS_NAME, self.store, self.T)
+        if real:     # keep the built-in BioAgents (they share self.store), only put the recorder in front
+            self.E = Recorder(loop.executor)
+            self.A = Recorder(loop.assessor)
+        else:
+            self.E = Recorder(Stub(EXEC_NAME, self.store, self.T))
+            self.A = Recorder(Stub(ASSESS_NAME, self.store, self.T))
+        self.real = real
         loop.executor = self.E
         loop.assessor = self.A
         self.loop = loop
@@ -116,7 +161,7 @@ class Impl:
         lp = self.loop
         cb = lp.get_circuit_breaker_stats()
         st = lp.get_statistics()
-        return " ".join([str(self.E.n), str(self.A.n), str(BUDGET - self.store.atp), str(cb.state.value),
+        return " ".join([str(self.E.n), str(self.A.n), str(self.budget - self.store.atp), str(cb.state.value),
                          str(cb.failure_count), str(cb.success_count), self._us(cb.last_failure),
                          self._us(cb.last_success), str(cb.trips_count), str(st["total_errors"]), str(st["cache_size"])])
 
@@ -124,8 +169,9 @@ class Impl:
         t = line.split()
         if not t:
             return "bad-op"
-        if t[0] == "cfg" and len(t) == 7:
-            self.new_loop(t[1] if t[1] in GATES else "and", t[2] == "1", int(t[3]), int(t[4]), t[5] == "1", int(t[6]))
+        if t[0] == "cfg" and len(t) in (7, 8, 9):
+            self.new_loop(t[1] if t[1] in GATES else "and", t[2] == "1", int(t[3]), int(t[4]), t[5] == "1", int(t[6]),
+                          int(t[7]) if len(t) >= 8 else BUDGET, len(t) == 9 and t[8] == "real")
             return "ok"
         if self.loop is None:
             self.new_loop()
@@ -134,8 +180,10 @@ class Impl:
             text = prompt_text(t[1])
             if not t[1].startswith("u"):
                 self.sha[hashlib.sha256(text.encode()).hexdigest()[:16]] = t[1]
-            self.E.next = EXC if t[2] == "exc" else verdict_text(t[2])
-            self.A.next = EXC if t[3] == "exc" else verdict_text(t[3])
+            if not self.real:     # (real agents decide for themselves; the line carries the verdicts they are expected to give)
+                self.E.agent.next = EXC if t[2] == "exc" else verdict_text(t[2])
+                self.A.agent.next = EXC if t[3] == "exc" else verdict_text(t[3])
+            self.E.last = self.A.last = None
             try:
                 with contextlib.redirect_stdout(io.StringIO()):
                     r = lp.run(text)
@@ -146,7 +194,7 @@ class Impl:
                 tk, iss = "none", "-"
             else:
                 tk = self.sha.get(tok.request_hash, "?")
-                iss = {ASSESS_NAME: "assessor", EXEC_NAME: "executor"}.get(tok.issuer, "?")
+                iss = "assessor" if tok.issuer == self.A.name else ("executor" if tok.issuer == self.E.name else "?")
             return " ".join([str(r.action), show_bool(r.success is True), show_bool(r.blocked is True), tk, iss,
                              show_bool(r.cached is True)]) + " ; " + self.stats()
         if t[0] == "adv" and len(t) == 2:
@@ -161,9 +209,16 @@ class Impl:
         return "bad-op"
 
     def run_case(self, case):
+        """observations + per line the verdicts the agents ACTUALLY returned: (z, y), each a verdict string, "exc",
+        or None when that agent was not consulted"""
         self.loop = None
-        obs = [self.line(l) for l in case["lines"]]
-        return obs, None
+        obs, actual = [], []
+        for l in case["lines"]:
+            if self.loop is not None:
+                self.E.last = self.A.last = None
+            obs.append(self.line(l))
+            actual.append((self.E.last, self.A.last) if l.startswith("run ") and self.loop is not None else (None, None))
+        return obs, actual
 
 
 # ------------------------------------------------------------------------------------------------------
@@ -195,5 +250,22 @@ class Ob:
         self.trips, self.total_errors, self.cache_size = int(s[8]), int(s[9]), int(s[10])
 
 
-def cfg_line(gate="and", breaker=True, thr=5, tmo=60_000_000, cache=True, ttl=300_000_000) -> str:
-    return f"cfg {gate} {show_bool(breaker)} {thr} {tmo} {show_bool(cache)} {ttl}"
+def cfg_line(gate="and", breaker=True, thr=5, tmo=60_000_000, cache=True, ttl=300_000_000, budget=None, real=False) -> str:
+    s = f"cfg {gate} {show_bool(breaker)} {thr} {tmo} {show_bool(cache)} {ttl}"
+    if budget is not None or real:
+        s += f" {BUDGET if budget is None else budget}"
+    if real:
+        s += " real"
+    return s
+
+
+BUDGETS = [0, 5, 10, 19, 20, 21, 50, 100, 200]          # besides "ample"
+DAY = 86_400_000_000
+BIG_ADVANCES = [DAY, DAY - 1, DAY + 1, DAY + 10_000_000, DAY + 59_999_999, DAY + 60_000_000, 7 * DAY + 59_000_000,
+                400 * DAY, 400 * DAY + 1_000_000, 2 * DAY - 1_000_000]
+
+
+def real_prompt(rng, dangerous: bool) -> str:
+    """prompt tokens whose verdicts from the built-in agents are known: harmless -> EXECUTE / PERMIT,
+    a dangerous marker (`wipe`, `destroy`) -> EXECUTE / BLOCK"""
+    return str((2000 if dangerous else 3000) + rng.randrange(40))
